@@ -41,13 +41,23 @@ def parsed_commands(script, sxs):
     return out
 
 
-def parse_case(text, sxs):
-    """Returns (res, parsed, exc)."""
+PRIMERS = {
+    "after-LRA-script": "(set-logic QF_LRA)(declare-fun zr0 () Real)(assert (< zr0 1))(assert (= zr0 (/ (+ 1 2) 2)))(assert (> zr0 0.5))",
+    "after-LIA-script": "(set-logic QF_LIA)(declare-fun zi0 () Int)(assert (< 1 zi0))(assert (= zi0 (+ 2 0)))",
+    "after-BV-script": "(set-logic QF_BV)(declare-fun zb0 () (_ BitVec 4))(assert (= zb0 #x1))(assert (= zb0 (_ bv2 4)))",
+}
+
+
+def parse_case(text, sxs, primer=None):
+    """Returns (res, parsed, exc).  With a primer, the SAME parser object first reads another script."""
     env = fresh_env()
     try:
         with warnings.catch_warnings():
             warnings.simplefilter("ignore")
-            script = SmtLibParser(env).get_script(io.StringIO(text))
+            parser = SmtLibParser(env)
+            if primer:
+                parser.get_script(io.StringIO(PRIMERS[primer]))
+            script = parser.get_script(io.StringIO(text))
         cmds = list(script.commands)
         if len(cmds) != len(sxs):
             return "ok", [{"name": c.name, "terms": [], "formals": [], "params": []} for c in cmds], ""
@@ -79,6 +89,16 @@ def run(ck, write_baseline=False):
         eid += 1
         ck.count()
         ck.nontrivial(c["fam"])
+        # the same text read by a parser object that has already read a script of another logic
+        if c["expect"] == "accept":
+            for pr in sorted(PRIMERS):
+                res3, parsed3, exc3 = parse_case(text, c["sxs"], primer=pr)
+                if res3 == "skip":
+                    continue
+                evs.append({"id": eid, "kind": "parse", "fam": c["fam"], "reuse": pr, "sxs": c["sxs"], "expect": c["expect"], "res": res3,
+                            "parsed": parsed3, "in_baseline": c["fam"] in baseline, "exc": exc3, "text": text[-300:]})
+                eid += 1
+                ck.count()
         # truncated variants of well-formed scripts are not SMT-LIB: they must be rejected
         if c["expect"] == "accept":
             for cut in (len(text) - 1, len(text) - 2, text.rfind("(assert") + 9 if "(assert" in text else len(text) // 2):
@@ -101,7 +121,10 @@ def run(ck, write_baseline=False):
     for i, fails in verdicts.items():
         e = byid[i]
         for cl in fails:
-            ck.violation({"kind": "parse", "clause": cl, "fam": e["fam"], "exc": e["exc"].split(":")[0]},
+            sig = {"kind": "parse", "clause": cl, "fam": e["fam"], "exc": e["exc"].split(":")[0]}
+            if e.get("reuse"):
+                sig["parser_reused"] = e["reuse"]
+            ck.violation(sig,
                          {"event": {k: e[k] for k in ("fam", "expect", "res", "parsed", "exc", "text", "in_baseline")}})
     rejected_ok = [e["fam"] for e in evs if e["expect"] == "accept" and e["res"] == "error"]
     ck.part("scripts", families=len(cases), events=len(evs), accepted=len(accepted_now),
